@@ -10,7 +10,7 @@ codecs reproduce the bytes.  All calls run under the deterministic step budget.
 from .. import impl, space, budget
 from ..runner import Result, new_failure
 from ..terms import Leaf, has_kind, render_type
-from ..values import dom, to_numeric
+from ..values import dom, to_numeric, is_incomplete
 from .. import absval
 from ..casefmt import vclass, errclass, valrepr, case_fields, rebuild_case, leafkeys, attribute_to_leaf_failures
 from .. import shrink as shrinker
@@ -22,7 +22,10 @@ CANONICAL = ('der', 'per', 'uper', 'oer')
 ASSUMPTIONS = [
     'Inside constructors (L1/L2) members are drawn from the 12-letter reduced alphabet Sigma_r; the full '
     'leaf alphabet is tied to containers by the L0c context layer (every leaf in 13 contexts).',
-    'Value domains are boundary sets (DESIGN 1.3), products are deviation-bounded (k<=2) above 512 elements.',
+    'Value domains are boundary sets (DESIGN 1.3), products are deviation-bounded (k<=2) above 48 elements; one long '
+    'component (600 / 16384 items; thorough: 511..65536) is tried in every composite; earlier-version values '
+    '(mandatory extension additions absent from some addition on) are included: the encoder may refuse them with '
+    'EncodeError, if it returns bytes the round trip must hold.',
     '-0.0 and NaN are not in the REAL domain.',
     'Step budget constants: c0=20000, c1=4000 events per encoded byte.',
 ]
@@ -43,6 +46,7 @@ def units(tier):
 def setup(tier):
     from .. import values
     values.set_tier(tier)
+    values.enable_incomplete(True)
 
 
 def has_enum(t, env):
@@ -69,6 +73,10 @@ def check_value(spec, codec, name, term, env, v, numeric, res, lab, unit):
     except budget.BudgetExceeded:
         return ('budget-steps-encode', 'BudgetExceeded', None)
     except Exception as e:
+        if isinstance(e, impl.asn1tools.EncodeError) and is_incomplete(term, v, env):
+            # an earlier-version value (mandatory addition absent) may be refused by the encoder
+            res.count('incomplete_values_refused_by_encoder')
+            return None
         return ('encode-raised', errclass(e), None)
     limit = C0 + C1 * (len(enc) + 1) + 60 * _sizeof(pv)
     try:
